@@ -74,7 +74,7 @@ class SqlCrashStream(Stream):
                 # row is being built) directly followed by a mutation of another key that succeeds
                 present = set()
                 for o in ops:
-                    if o[0] == 'add' and not o[3]:
+                    if (o[0] == 'add' and not o[3]) or o[0] == 'readd':
                         present.add(o[1])
                     elif o[0] == 'delete':
                         present.discard(o[1])
@@ -90,7 +90,7 @@ class SqlCrashStream(Stream):
                 yield {'ops': ops, 'crash_after': k, 'kind': kind}
             if i % 4 == 0:
                 for k in range(len(ops)):
-                    if ops[k][0] in ('add', 'update', 'delete') and kills < (24 if tier == 'quick' else 300):
+                    if ops[k][0] in ('add', 'readd', 'update', 'delete') and kills < (24 if tier == 'quick' else 300):
                         kills += 1
                         yield {'ops': ops, 'crash_after': k, 'kind': 'kill'}
 
@@ -109,7 +109,7 @@ class SqlCrashStream(Stream):
             res = seg.split(' ')[0]
             before = dict(m)
             if res == 'ok':
-                if o[0] == 'add':
+                if o[0] in ('add', 'readd'):
                     m[o[1]] = o[2]
                 elif o[0] == 'update' and o[1] in m:
                     m[o[1]] = o[2]
